@@ -39,13 +39,14 @@ def sym(f, v):
             g = strip(v[2][0])
             if g[0] == 'call' and g[1] == 'libcnb::env::Env::get' and sym(f, g[2][1]) == 'NAME':
                 return 'PREV'
-        if n == 'libcnb::layer_env::LayerEnvDelta::delimiter_for' and sym(f, v[2][1]) == 'NAME':
+        if n == L.DELIM_FOR and sym(f, v[2][1]) == 'NAME':
             return 'DELIM'
     return vstr(v)[:60]
 
 
 def run(ctx, rep):
     prog, sl = ctx.prog, ctx.slicer
+    L.resolve_roles(prog, sl)
     rep.rule('R1', 'Scope -> ordered delta list table of LayerEnv::apply, folded in order')
     rep.rule('R2', 'Ord for ModificationBehavior ranks = lexicographic order of the file suffixes')
     rep.rule('R3', 'apply cannot modify its inputs (shared references, owned result, no interior mutability)')
@@ -130,7 +131,7 @@ def run(ctx, rep):
               'entries are not kept in an ordered map keyed by (behaviour, name): %s' % ety)
     writers = sorted({fn.path for fn, bi, how in field_accesses(prog, 'entries', 'libcnb::layer_env::LayerEnvDelta')
                       if how in ('refmut', 'write') and not fn.derived})
-    rep.check(writers == ['libcnb::layer_env::LayerEnvDelta::insert'], 'R4', 'single-writer', '%s:%d' % (d['file'], d['line']),
+    rep.check(writers == [L.INSERT], 'R4', 'single-writer', '%s:%d' % (d['file'], d['line']),
               'LayerEnvDelta::insert is the only writer of entries', 'entries are mutated by %s' % writers)
     arm_rules(ctx, rep)
 
@@ -158,6 +159,7 @@ class _ArmFilter:
 def arm_rules(ctx, rep, rule='R5', only=None):
     """per-behaviour arm shapes of LayerEnvDelta::apply (shared with C10 for the Prepend / Delimiter arms)"""
     prog, sl = ctx.prog, ctx.slicer
+    L.resolve_roles(prog, sl)
     if only is not None:
         rep = _ArmFilter(rep, only)
     g = prog.fn(L.DAPPLY)
@@ -253,7 +255,7 @@ def arm_rules(ctx, rep, rule='R5', only=None):
     rep.check('Delimiter' not in shapes, rule, 'shape/Delimiter', gw, 'Delimiter entries change no variable',
               'Delimiter arm mutates the environment: %s' % shapes.get('Delimiter'))
     # delimiter lookup
-    df = prog.fn('libcnb::layer_env::LayerEnvDelta::delimiter_for')
+    df = prog.fn(L.DELIM_FOR)
     rep.analysed(df)
     rv = strip(sl.local(df, 0))
     good = False
